@@ -34,6 +34,10 @@ CHECKS = {
    text='concrete structure, symbolic content: a pinned pre-pass through the real parser/encoder discovers which bytes of each fixture steer control flow; every other byte becomes a solver variable; the real eager and lazy parsers, the encoder and the JSON conversion then run on that buffer and field trees / byte strings are compared term by term; edit operations are checked by an independent box walker',
    note='box structures are those of the fixture files (moov, encrypted moov, HEVC, E-AC-3, text, audio and text segments); symbolic values range over the parser image (every value the parser can produce); at most 1500 symbolic bytes per file; CRC/struct/bitstring/base64 are environment models validated differentially',
    ref='DESIGN.md 5 C04'),
+ 'C06': dict(
+   text='Representation.load executed on a symbolic parsed-file layout (symbolic box sizes, sample durations, first sequence number and decode time), SegmentList tiling, VOD $Number$/$Time$ addressing through the real handler kernel with symbolic startNumber and requested number, and the mediaPresentationDuration text round trip with a symbolic media duration',
+   note='indexing: 2..4 fragments (quick), optional sidx/free tail boxes, three tfdt modes; VOD addressing on the layout catalogue; moov is the parsed moov of a fixture; bitrate/frame-rate quotients are over-approximated (not part of the obligations)',
+   ref='DESIGN.md 5 C06'),
  'C08': dict(
    text='DashTiming executed on a fully symbolic calendar instant (year..microsecond are solver variables, calendar arithmetic relational), symbolic depth and explicit start; coherence obligations as SMT validity queries on every path; monotonicity by a one-day-window induction step',
    note='now in 1971..2200 UTC; minimumUpdatePeriod from a concrete catalogue (it divides a symbolic value); reference (segment_duration, timescale) from the layout catalogue; float total_seconds() modelled as exact rational with error bound',
